@@ -1,8 +1,8 @@
 (* C09 The stored workflow satisfies its invariants after every transaction.
    Property theorems only; proofs in proofs/Graph*.v (see design.d/C09.md). *)
-From Coq Require Import List NArith Bool.
+From Coq Require Import List NArith Bool Relations.
 From SV Require Import lib.Bytes lib.Closure model.Graph model.GraphInv gen.GenGraph
-  proofs.GraphNodes proofs.GraphProofs proofs.GraphTables.
+  proofs.GraphNodes proofs.GraphProofs proofs.GraphTables proofs.GraphTrans.
 Import ListNotations.
 Open Scope N_scope.
 
@@ -224,6 +224,25 @@ Example C09_request_ok_nonvacuous :
   request_ok s (OpAmendStep [65] [[120]] [] [[121]] []) = true /\
   request_ok s (OpDeclareStatic (KStep, [65]) [[119]; [120]]) = true.
 Proof. vm_compute. repeat split; reflexivity. Qed.
+
+(* ------------------------------------------------------------------------------------------ *)
+(* 4. documented file state transitions (partial transitions_documented)                       *)
+(* ------------------------------------------------------------------------------------------ *)
+(* For the 11 operations that do not declare files (everything except declare_static, define_step
+   and amend_step, whose File.initialize_row may give a detached node a new role), from ANY state,
+   without any invariant or protocol: a file row that exists before and after the operation moved
+   along the reflexive-transitive closure of the documented single steps file_step = a row of
+   _HASH_TRANSITIONS (for some cause and hash_known), BUILT -> OUTDATED, OUTDATED -> BUILT; and no
+   file row appears.  (Step state transitions and the three declaring requests: not proved.) *)
+Theorem C09_file_transitions_documented_partial :
+  forall o s l r r', declares_files o = false ->
+    find_file l s = Some r -> find_file l (apply_op s o) = Some r' ->
+    clos_refl_trans fstate file_step (fstt r) (fstt r').
+Proof. exact file_transitions_documented. Qed.
+
+Theorem C09_no_new_file_rows :
+  forall o s l, declares_files o = false -> find_file l (apply_op s o) <> None -> find_file l s <> None.
+Proof. exact no_new_file_rows. Qed.
 
 (* ------------------------------------------------------------------------------------------ *)
 (* 5. the hand-written tables of the model equal the tables regenerated from the source        *)
